@@ -296,7 +296,7 @@ fn read_char_values(
 
     for _ in 0..sample_count {
         let s = read_string_until_nul(src, len)?;
-        let c = s.chars().next().unwrap();
+        let c = s.chars().next().ok_or(DecodeError::InvalidCharacter)?;
 
         let value = match c {
             MISSING => None,
@@ -324,11 +324,12 @@ fn read_char_array_values(
 
         let value = Value::from(
             s.split(DELIMITER)
-                .map(|t| match t.chars().next().unwrap() {
-                    MISSING => None,
-                    c => Some(c),
+                .map(|t| match t.chars().next() {
+                    Some(MISSING) => Ok(None),
+                    Some(c) => Ok(Some(c)),
+                    None => Err(DecodeError::InvalidCharacter),
                 })
-                .collect::<Vec<_>>(),
+                .collect::<Result<Vec<_>, _>>()?,
         );
 
         values.push(Some(value));
@@ -474,6 +475,7 @@ pub enum DecodeError {
     InvalidString(str::Utf8Error),
     InvalidGenotype,
     InvalidValue,
+    InvalidCharacter,
 }
 
 impl error::Error for DecodeError {
@@ -496,6 +498,7 @@ impl fmt::Display for DecodeError {
             Self::InvalidString(_) => write!(f, "invalid string"),
             Self::InvalidGenotype => write!(f, "invalid genotype"),
             Self::InvalidValue => write!(f, "invalid value"),
+            Self::InvalidCharacter => write!(f, "invalid character"),
         }
     }
 }
@@ -544,6 +547,21 @@ mod tests {
             &[0x25, 0x00, 0x00, 0x00, 0x00, 0x03, 0x00, 0x80, 0x7f],
             Number::Count(2),
             format::Type::Float,
+        );
+    }
+
+    #[test]
+    fn test_read_values_with_empty_characters() {
+        let mut src = &[0x17, 0x00][..];
+        assert_eq!(
+            read_values(&mut src, Number::Count(1), format::Type::Character, 1),
+            Err(DecodeError::InvalidCharacter)
+        );
+
+        let mut src = &[0x37, b'n', b',', 0x00][..];
+        assert_eq!(
+            read_values(&mut src, Number::Count(2), format::Type::Character, 1),
+            Err(DecodeError::InvalidCharacter)
         );
     }
 
